@@ -67,7 +67,7 @@ func explorerFor(sc *Scenario, bound int) *vs.Explorer {
 		MaxStates: 12000000,
 		New: func() *vs.Exec {
 			w := newWorld(sc)
-			return &vs.Exec{Main: w.Main, Check: w.Check, Invariant: w.Invariant}
+			return &vs.Exec{Main: w.Main, Check: w.Check, Invariant: w.Invariant, OnStuck: w.OnStuck}
 		},
 	}
 }
@@ -214,9 +214,9 @@ func runOne(sc *Scenario, bound int, start time.Time, budget time.Duration, nopr
 				var got []string
 				switch {
 				case out.StepCap:
-					got = []string{"stepcap"}
+					got = append([]string{"stepcap"}, ov...)
 				case out.Deadlock != "":
-					got = []string{"deadlock: " + out.Deadlock}
+					got = append([]string{"deadlock: " + out.Deadlock}, ov...)
 				case out.Panic != "":
 					got = []string{"panic"}
 				case out.InvFail != "":
@@ -277,7 +277,7 @@ var propScenarios = map[string]*regexp.Regexp{
 	"C06": regexp.MustCompile(`^(D1|D2|D3|D6|D7|SEQ|MS)`),
 	"C09": regexp.MustCompile(`^(D2|D4|D6|T9|SPLIT|SEQ)`),
 	"C10": regexp.MustCompile(`^(D8)`),
-	"C11": regexp.MustCompile(`^(D1|D3|D5|D6|D7|D8|K2)`),
+	"C11": regexp.MustCompile(`^(D1|D2|D3|D5|D6|D7|D8|K2)`),
 	"C18": regexp.MustCompile(`^(D9|D7)`),
 }
 
@@ -307,7 +307,12 @@ func main() {
 				time.Sleep(200 * time.Millisecond)
 				var ms runtime.MemStats
 				runtime.ReadMemStats(&ms)
-				if ms.HeapInuse > 1<<30 {
+				thr := uint64(1 << 30)
+				if os.Getenv("BPX_MEMSTATS_GB") != "" {
+					fmt.Sscan(os.Getenv("BPX_MEMSTATS_GB"), &thr)
+					thr <<= 30
+				}
+				if ms.HeapInuse > thr {
 					f, _ := os.Create("/tmp/heap.prof")
 					pprof.WriteHeapProfile(f)
 					f.Close()
